@@ -125,6 +125,13 @@ func conc(r *ev.Run, exhaustive *bool) {
 				Check: func(x *vsched.Execution, choices []int) {
 					ms := multiset(got)
 					outcomes[fmt.Sprintf("%s/%s: %s", e.name, sc.name, ms)]++
+					for _, race := range x.Races {
+						// two validations touch a Go map without any synchronisation between them: the
+						// runtime aborts the process on such an overlap ("concurrent map read and map
+						// write"), and the verdicts stop being a function of a sequential order
+						r.Violate("conc-validation-data-race "+race, fmt.Sprintf("concurrent validation of [%s] (%s): %s", strings.Join(sc.elems, ", "), e.name, race), "c09-conc",
+							map[string]interface{}{"era": ei, "scenario": si, "choices": choices}, race, "every access to a shared map ordered by a lock")
+					}
 					if x.Deadlock {
 						r.Violate("conc-validation-deadlock", fmt.Sprintf("concurrent validation deadlocked (%v) in scenario %q", x.Blocked, sc.name), "c09-conc",
 							map[string]interface{}{"era": ei, "scenario": si, "choices": choices}, ms, nil)
@@ -162,7 +169,8 @@ func conc(r *ev.Run, exhaustive *bool) {
 	r.Set("concurrent_preemption_bound", bound)
 	r.Set("concurrent_max_choice_points", maxPoints)
 	r.Set("concurrent_outcomes", outcomes)
-	r.Assume("concurrent half: message/validation built with sync -> vsync (every Mutex/RWMutex/sync.Map operation is a scheduling point), 2-3 validating goroutines, preemption-bounded; verdict multiset must match a sequential order on a fresh validator")
+	r.Assume("concurrent half: message/validation built with sync -> vsync (every Mutex/RWMutex/sync.Map operation is a scheduling point), 2-3 validating goroutines, preemption-bounded; verdict multiset must match a sequential order on a fresh validator",
+		"data races: validation.go is instrumented so that every read/write of a map reached as x.field[...] reports to the scheduler's happens-before check (vector clocks over vsync locks, sync.Map operations, atomics, spawn); a conflicting pair without happens-before order in any explored schedule is a violation. Plain (non-map) variables are not watched")
 }
 
 func replayConc(r *ev.Run, v ev.Violation) {
